@@ -139,13 +139,14 @@ def gen_expr(rng, pool, conts, depth=0):
         return ["bin", rng.choice(["%", "//"]), gen_expr(rng, pool, conts, depth + 1), ["const", rng.choice([-3, -2, 2, 3, 5])]]
     if k < 0.6:
         a = ["ref", rng.choice(pool)]
-        b = ["const", rng.choice(NUMERIC_POOL) if TYPED_LITERALS[0] and rng.random() < 0.3 else rng.randint(-5, 5)]
+        b = ["const", rng.choice(LITERAL_POOL) if TYPED_LITERALS[0] and rng.random() < 0.3 else rng.randint(-5, 5)]
         if rng.random() < 0.3:
             a, b = b, a
         return ["bin", rng.choice("+-*"), a, b]
     return ["bin", rng.choice("+-*"), gen_expr(rng, pool, conts, depth + 1), gen_expr(rng, pool, conts, depth + 1)]
 
 
+LITERAL_POOL = [v for v in NUMERIC_POOL if not v.startswith("\x02num:")]      # (a user number left of an operator swallows the reference)
 TYPED_LITERALS = [False]
 EXPR_MODE = ["int"]      # set by gen_history: "mixed" histories also use typed literals and ** inside expressions
 POW_BASES = ["\x02f:-0.0", "\x02f:-0.0", "\x02f:-0.0", "\x02f:-2.25", "\x02f:0.5", "\x02f:3.0", "\x02f:0.0", "\x02f:-1.0"]      # float bases: any exponent is cheap
